@@ -69,7 +69,7 @@ inline ld draw_in(ld lo, ld hi, ld g)
 // Generates configurations inside-out so that the region of in-domain coordinates of
 // every layer is known by construction; then coordinates from the outermost region.
 // Must be called inside a rapidcheck generator (uses *gen).
-inline Case draw_case(const model::Desc & d, unsigned ncoords)
+inline Case draw_case(const model::Desc & d, unsigned ncoords, bool allow_empty = false)
 {
     Case c;
     const size_t L = d.layers.size();
@@ -95,6 +95,9 @@ inline Case draw_case(const model::Desc & d, unsigned ncoords)
             uint64_t cells = 1;
             for (size_t a = 0; a < l.N; ++a) {
                 uint64_t e = *in_range<uint64_t>(has_linear ? 2 : 1, l.N <= 2 ? 6 : l.N == 3 ? 4 : 3);
+                if (allow_empty && *in_range<unsigned>(0, 11) == 0) {
+                    e = 0;   // an empty field is a field: its configuration must read back as well
+                }
                 c.ext.push_back(e);
                 c.cfg[k].push_back(e);
                 reg[k].push_back(Iv{0, ld(e - 1)});
